@@ -75,24 +75,24 @@ func loadKnown(path string) ([]knownFinding, error) {
 }
 
 type agg struct {
-	mu        sync.Mutex
-	runs      int64
-	evals     int64
-	aborts    int64
-	abortWhy  map[string]int
-	probes    map[string]int
-	faults    map[string]int
-	sigs      map[string]bool
-	sites     map[string]int
-	steps     int64
-	simUS     int64
-	samples   []json.RawMessage
-	viols     map[string]*ViolRec // by signature, lowest run number wins
-	violCount map[string]int
-	infra     []string
-	digests   map[int64]uint64
+	mu           sync.Mutex
+	runs         int64
+	evals        int64
+	aborts       int64
+	abortWhy     map[string]int
+	probes       map[string]int
+	faults       map[string]int
+	sigs         map[string]bool
+	sites        map[string]int
+	steps        int64
+	simUS        int64
+	samples      []json.RawMessage
+	viols        map[string]*ViolRec // by signature, lowest run number wins
+	violCount    map[string]int
+	infra        []string
+	digests      map[int64]uint64
 	inconclusive int64
-	crashed   []crashInfo
+	crashed      []crashInfo
 }
 
 type crashInfo struct {
@@ -601,21 +601,21 @@ func (c *SuperCfg) writeEvidence(a *agg, def *PropDef, runWall, wall float64, nv
 		}
 	}
 	cov := map[string]any{
-		"evaluations":         a.evals,
-		"distinct_nontrivial": len(a.sigs),
-		"rule":                def.Rule,
-		"samples":             samples,
-		"runs":                a.runs,
-		"runs_aborted":        a.aborts,
-		"abort_reasons":       a.abortWhy,
-		"runs_per_hour":       int64(float64(a.runs) / runWall * 3600),
-		"steps":               a.steps,
-		"simulated_seconds":   float64(a.simUS) / 1e6,
-		"faults_injected":     a.faults,
-		"probes":              a.probes,
+		"evaluations":          a.evals,
+		"distinct_nontrivial":  len(a.sigs),
+		"rule":                 def.Rule,
+		"samples":              samples,
+		"runs":                 a.runs,
+		"runs_aborted":         a.aborts,
+		"abort_reasons":        a.abortWhy,
+		"runs_per_hour":        int64(float64(a.runs) / runWall * 3600),
+		"steps":                a.steps,
+		"simulated_seconds":    float64(a.simUS) / 1e6,
+		"faults_injected":      a.faults,
+		"probes":               a.probes,
 		"probes_stuck_at_zero": zero,
-		"known_findings_hit":  knownHits,
-		"inconclusive":        a.inconclusive,
+		"known_findings_hit":   knownHits,
+		"inconclusive":         a.inconclusive,
 		"components": map[string]any{
 			"real":      []string{"klevdb (all packages, compiled from the working tree, instrumented at the os/sync/atomic/time/rand/channel seams)", "gofrs/flock", "go-adaptive-radix-tree", "x/exp/mmap", "kernel file I/O on tmpfs"},
 			"simulated": []string{"wall clock and timers", "goroutine scheduling (engine S)", "crypto/rand", "process death / power loss (engines K: images synthesised from the recorded FS trace)", "fsync durability (shadow disk model)"},
